@@ -121,3 +121,95 @@ Example C04_self_extend_witness :
     ([VInt 1%Z; VInt 2%Z; VInt 1%Z; VInt 2%Z], [VInt 1%Z; VInt 2%Z], [VObj 1; VObj 2; VObj 1; VObj 2], [(0, 2)]).
 Proof. exact self_extend_witness. Qed.
 Print Assumptions C04_self_extend_witness.
+
+(* ---------- slice access: c[a:b], c[a:b] = ys, del c[a:b]  (Model/Slice.v, Proofs/SliceProofs.v) ----------
+   Step-1 slices with optional bounds, every bound in Z (absent, negative, past the end, crossing).
+   List-based collections behave as a Python list does, stated position by position; the element-level
+   calls are particular slice calls; OrderedSet-based collections refuse slice writes (only `del c[:]`,
+   which empties them) and whole histories mixing element-level and slice calls still refine the
+   duplicate-free list specification.  (Extended slices - a step other than 1 - are compared by the
+   implementation-vs-list oracle only.) *)
+From PyecoreV Require Import Model.Slice Proofs.SliceProofs.
+Open Scope Z_scope.
+
+Theorem C04_slice_assignment_position_by_position :
+  forall (a b : option Z) (ys l : list Z) (k : nat),
+  let '(lo, hi) := slice_bounds (zlen l) a b in
+  (0 <= lo /\ lo <= hi /\ hi <= zlen l) /\
+  zlen (py_setslice a b ys l) = zlen l - (hi - lo) + zlen ys /\
+  nth_error (py_setslice a b ys l) k =
+    if Z.of_nat k <? lo then nth_error l k
+    else if Z.of_nat k <? lo + zlen ys then nth_error ys (k - Z.to_nat lo)
+    else nth_error l (k - length ys + Z.to_nat (hi - lo)).
+Proof.
+  intros a b ys l k. pose proof (setslice_length a b ys l) as H1. pose proof (setslice_nth a b ys l k) as H2.
+  destruct (slice_bounds (zlen l) a b) as [lo hi] eqn:E.
+  split; [exact (slice_bounds_range _ _ _ _ _ (zlen_nonneg l) E) | split; assumption].
+Qed.
+Print Assumptions C04_slice_assignment_position_by_position.
+
+Theorem C04_slice_read_position_by_position :
+  forall (a b : option Z) (l : list Z) (k : nat),
+  let '(lo, hi) := slice_bounds (zlen l) a b in
+  zlen (py_getslice a b l) = hi - lo /\
+  nth_error (py_getslice a b l) k = if Z.of_nat k <? hi - lo then nth_error l (Z.to_nat lo + k) else None.
+Proof.
+  intros a b l k. pose proof (getslice_length a b l) as H1. pose proof (getslice_nth a b l k) as H2.
+  destruct (slice_bounds (zlen l) a b) as [lo hi]. split; assumption.
+Qed.
+Print Assumptions C04_slice_read_position_by_position.
+
+(* deletion leaves what is read before and behind the slice; the whole slice reads / replaces / empties everything;
+   writing back what was read changes nothing; what was written is read back where it was written *)
+Theorem C04_slice_laws :
+  forall (a b : option Z) (ys l : list Z),
+  (let '(lo, hi) := slice_bounds (zlen l) a b in
+   py_delslice a b l = py_getslice None (Some lo) l ++ py_getslice (Some hi) None l /\
+   py_getslice (Some lo) (Some (lo + zlen ys)) (py_setslice a b ys l) = ys) /\
+  py_setslice a b (py_getslice a b l) l = l /\
+  py_getslice None None l = l /\ py_setslice None None ys l = ys /\ py_delslice None None l = [].
+Proof.
+  intros a b ys l. pose proof (delslice_is_rest a b l) as H1. pose proof (getslice_setslice a b ys l) as H2.
+  destruct (slice_bounds (zlen l) a b) as [lo hi].
+  split; [split; assumption|].
+  split; [apply setslice_getslice_id|]. split; [apply getslice_all|]. split; [apply setslice_all | apply delslice_all].
+Qed.
+Print Assumptions C04_slice_laws.
+
+(* the element-level calls of a list-based collection are slice calls *)
+Theorem C04_element_calls_are_slice_calls :
+  forall (x : Z) (ys l : list Z),
+  (forall i, py_setslice (Some i) (Some i) [x] l = py_insert i x l) /\
+  (forall k, 0 <= k < zlen l -> py_setslice (Some k) (Some (k + 1)) [x] l = set_at (Z.to_nat k) x l) /\
+  (forall k, 0 <= k < zlen l -> py_delslice (Some k) (Some (k + 1)) l = remove_at (Z.to_nat k) l) /\
+  py_setslice (Some (zlen l)) None ys l = l ++ ys.
+Proof.
+  intros x ys l. split; [intros i; apply insert_is_setslice|].
+  split; [intros k H; apply setitem_is_setslice; exact H|].
+  split; [intros k H; apply delitem_is_delslice; exact H | apply extend_is_setslice].
+Qed.
+Print Assumptions C04_element_calls_are_slice_calls.
+
+(* unique collections: every history mixing element-level and slice calls (refused ones included) keeps the
+   invariant, never holds an element twice and iterates as the duplicate-free list specification *)
+Theorem C04_every_history_with_slices :
+  forall ops,
+    os_inv (fold_left (snext soset_step) ops os_empty) /\
+    NoDup (items (fold_left (snext soset_step) ops os_empty)) /\
+    items (fold_left (snext soset_step) ops os_empty) = fold_left (snext suspec_step) ops [].
+Proof.
+  intros ops. destruct (soset_history ops) as [H1 H2]. split; [exact H1|]. split; [exact (proj1 H1) | exact H2].
+Qed.
+Print Assumptions C04_every_history_with_slices.
+
+(* non-vacuity: crossing, negative and absent bounds on [1;2;3;4;5], and a unique collection that refuses *)
+Example C04_slice_witness :
+  py_setslice (Some 1) (Some 3) [8; 9; 7] [1; 2; 3; 4; 5] = [1; 8; 9; 7; 4; 5] /\
+  py_setslice (Some 4) (Some 2) [0] [1; 2; 3; 4; 5] = [1; 2; 3; 4; 0; 5] /\
+  py_setslice (Some (-2)) None [] [1; 2; 3; 4; 5] = [1; 2; 3] /\
+  py_getslice (Some (-9)) (Some (-1)) [1; 2; 3; 4; 5] = [1; 2; 3; 4] /\
+  py_delslice (Some 7) (Some 9) [1; 2; 3] = [1; 2; 3] /\
+  items (fold_left (snext soset_step)
+           [SOp (CAppend 10); SOp (CAppend 20); SSetSlice (Some 0) (Some 1) [30]; SDelSlice (Some 0) None] os_empty) = [10; 20] /\
+  items (fold_left (snext soset_step) [SOp (CAppend 10); SOp (CAppend 20); SDelSlice None None] os_empty) = [].
+Proof. vm_compute. repeat split; reflexivity. Qed.
